@@ -58,7 +58,12 @@ func ClusterCreateTable(fxs []*Fixture, name string, d time.Duration) (uint64, e
 
 // ClusterDropTable deletes a table and stops its replicas on every node.
 func ClusterDropTable(fxs []*Fixture, name string) {
-	_ = fxs[0].E.DeleteTable(name)
+	for _, f := range fxs {
+		if f.E != nil {
+			_ = f.E.DeleteTable(name)
+			break
+		}
+	}
 	for k := 0; k < 3; k++ {
 		for _, f := range fxs {
 			if f.E != nil {
